@@ -4,7 +4,7 @@
 //   c18_roundtrip <casefile>      each non-empty line "CLASS FORMAT SEED VARIANT" (FORMAT in {text,bin})
 //
 // For every input line exactly one output line, flushed immediately:
-//   CLASS FORMAT SEED VARIANT OK n=<number of observables compared>
+//   CLASS FORMAT SEED VARIANT OK n=<number of observables compared> [note=<case specific output without blanks>]
 //   CLASS FORMAT SEED VARIANT DIFF <observable>: orig=<value> restored=<value>
 //   CLASS FORMAT SEED VARIANT EXC <message>
 //   CLASS FORMAT SEED VARIANT SKIP unknown-case
@@ -53,6 +53,7 @@ int main(int argc, char** argv) {
 	registerOpt(cases);
 	registerExtra(cases);
 	registerMoo(cases);
+	registerStream(cases);
 
 	if (argc != 2 && argc != 3) {
 		std::cerr << "usage: c18_roundtrip --list | <casefile>\n";
@@ -121,6 +122,7 @@ int main(int argc, char** argv) {
 				} else {
 					result = "OK n=" + std::to_string(n);
 				}
+				if (!ctx.note.empty()) result += " note=" + ctx.note;
 			} catch (std::exception const& e) {
 				result = "EXC " + oneLine(e.what());
 				if (result == "EXC ") result = "EXC (empty-what)";
